@@ -988,6 +988,19 @@ class GroupBy:
 
         if transform:
             self._unify_group_key_chunks()
+            if func_is_mean:
+                # the kernels returned sums: divide by the counts before broadcasting
+                with np.errstate(invalid="ignore", divide="ignore"):
+                    means = [
+                        mean_from_sum_count(
+                            pd.Series(s[:result_len]), pd.Series(c[:result_len])
+                        ).to_numpy()
+                        for s, c in zip(result_columns, counts)
+                    ]
+                # one extra (null) slot, picked by the rows whose key is null (code -1)
+                result_columns = [
+                    np.append(m, np.array([np.nan]).astype(m.dtype)) for m in means
+                ]
             result_columns = [result[self.group_ikey] for result in result_columns]
             if common_index is not None:
                 result_index = common_index
